@@ -120,6 +120,11 @@ var ungeneratable = []struct {
 	{"object-enum-value", `{"enum":[{"a":1}]}`, false},
 	{"array-enum-value", `{"type":"string","enum":[["x"]]}`, false},
 	{"array-definition-without-items", `{"type":"array"}`, true},
+	{"unknown-type-with-format-date-time", `{"type":"junk","format":"date-time"}`, false},
+	{"unknown-type-with-format-date", `{"type":"strnig","format":"date"}`, false},
+	{"unknown-type-with-format-ipv4", `{"type":["junk","null"],"format":"ipv4"}`, false},
+	{"unknown-type-with-format-time", `{"type":"String","format":"time"}`, false},
+	{"unknown-type-with-format-ipv6", `{"type":"text","format":"ipv6"}`, false},
 	{"multi-type-additional-properties", `{"type":"object","properties":{"p":{"type":"string"}},"additionalProperties":{"type":["string","integer"]}}`, false},
 }
 
@@ -407,7 +412,23 @@ func TestC18(t *testing.T) {
 			cc.What = u.name + " at " + inj.site
 			cc.MustErr = true
 			text := string(mv.Indent())
-			if rapid.IntRange(0, 3).Draw(rt, "secondfile") == 0 {
+			if sf := rapid.IntRange(0, 5).Draw(rt, "secondfile"); sf == 1 {
+				// neither file states an id and the first one only names one good definition of the
+				// second: the fault elsewhere in the second file must still be reported
+				kw := "$defs"
+				if mv.Has("definitions") {
+					kw = "definitions"
+				}
+				defs, _ := mv.Get(kw)
+				if defs.K != jv.Obj {
+					defs = jv.ObjV()
+				}
+				sv := mv.Del("$id").Del("id").Set(kw, defs.Set("ZzGood", jv.MustParse(`{"type":"object","properties":{"ok":{"type":"string"}}}`)))
+				first := `{"type":"object","properties":{"other":{"$ref":"second.json#/` + kw + `/ZzGood"}}}`
+				cc.Case = &gen.Case{Files: []gen.FileText{{RelPath: "first.json", Text: first}, {RelPath: "second.json", Text: string(sv.Indent())}}, Inputs: []string{"first.json"}, Config: cfg}
+				cc.What += " in a referenced second file (no ids, reference names another definition)"
+				c.Count("inject.second_file_without_ids")
+			} else if sf == 0 {
 				// the faulty schema is a second file referenced from a clean first one
 				first := `{"$id":"https://example.com/first","type":"object","properties":{"other":{"$ref":"second.json"}}}`
 				cc.Case = &gen.Case{Files: []gen.FileText{{RelPath: "first.json", Text: first}, {RelPath: "second.json", Text: text}}, Inputs: []string{"first.json"}, Config: cfg}
